@@ -296,10 +296,10 @@ pub fn sweep_f32(ctx: &Ctx) {
         for pos in 0..maxpos {
             // quick: position 0 in full; later positions with stride 16 plus the top/bottom 2^12 patterns
             let full = ctx.thorough() || pos == 0;
-            let blocks: Vec<u64> = (0..256u64).collect();
+            let blocks: Vec<(u64, Box<dyn Sampler>)> = (0..256u64).map(|b| (b, s.clone_box())).collect();
             let (ev, nt): (u64, u64) = blocks
-                .par_iter()
-                .map(|&b| {
+                .into_par_iter()
+                .map(|(b, s)| {
                     let mut ev = 0u64;
                     let mut nt = 0u64;
                     let base = VRng::mix(seed);
